@@ -594,6 +594,14 @@ def path_condition(node, fn):
     return out
 
 
+def current_node_var(fn, seg='seg'):
+    """the name of the variable that holds the map node of the current segment in a driver loop: the receiver of the one
+    `<var>.is_valid(<seg>, ...)` call (None when there is no such call or the receiver is not a plain name)"""
+    rec = {c.func.value.id for c in ast.walk(fn) if isinstance(c, ast.Call) and isinstance(c.func, ast.Attribute) and c.func.attr == 'is_valid'
+           and isinstance(c.func.value, ast.Name) and c.args and isinstance(c.args[0], ast.Name) and c.args[0].id == seg}
+    return next(iter(rec)) if len(rec) == 1 else None
+
+
 def preorder(fn):
     """{id(node): index} in source order (depth-first, fields in syntax order) - unlike line numbers this stays
     meaningful for statements that the normal form moved in from a helper"""
